@@ -38,7 +38,7 @@ from ..x_flow import resolve_local, expand_locals
 from ..x_sites import method_calls
 
 from ..x_http import norm_func
-from ..x_objalias import subst_object_aliases
+from ..x_objalias import subst_object_aliases, inline_constants, through_local
 
 # private helpers that the rules model by name (sanitisers / summarised effects) and therefore must stay calls
 KEEP_CALLS = {"_format_chunk", "_convert_header_value", "_clear_representation_headers", "_can_keep_alive", "_compressible_type",
@@ -49,7 +49,7 @@ def F(ck, relpath, qualname):
     """The anchored function with its private same-file helpers inlined (function splitting is followed, depth 3)."""
     fi = ck.func(relpath, qualname)
     try:
-        return subst_object_aliases(norm_func(ck.repo, fi, depth=3, no_inline=KEEP_CALLS))
+        return inline_constants(subst_object_aliases(norm_func(ck.repo, fi, depth=3, no_inline=KEEP_CALLS)))
     except AnalysisError:
         raise
     except Exception as e:  # the normaliser must never turn into a verdict
@@ -71,6 +71,14 @@ def absent(fi, what, keep=()):
     if not fully_inlined(fi, keep):
         raise AnalysisError("%s: %s not found, and private helpers remain that could not be inlined" % (fi.qualname, what))
     return False
+
+
+def OB(ck, env, rule, fi, node, ok, what, construct=None):
+    """ck.ob for verdicts derived from a partial evaluation: a failing verdict reached through a test that involves a
+    fixed input but could not be decided is not positive evidence — fail closed instead of reporting it."""
+    if not ok and env is not None and env.get("@partial"):
+        raise AnalysisError("%s: not decidable here - the evaluation went through the test '%s', which involves a fixed input but could not be folded" % (fi.qualname, env["@partial"]))
+    return ck.ob(rule, fi, node, ok, what, construct=construct)
 
 
 TECHNIQUE = "flow-sensitive taint to the morsel stores with automaton-decided regex guards; typestate for delete-before-set and emit-before-write; who-may-write on the cookie jar"
@@ -289,8 +297,8 @@ def check_attr_table(ck, fi):
                         r = ("<derived from %s>" % ",".join(src)) if src else UNK
                     return r
 
-                if isinstance(v, ast.Call) and q.call_attr(v) == "format_timestamp" and len(v.args) == 1:
-                    val = ("timestamp", sym(v.args[0]))
+                if isinstance(v, ast.Call) and q.call_attr(v) == "format_timestamp" and q.arg(v, 0, "ts") is not None:
+                    val = ("timestamp", sym(q.arg(v, 0, "ts")))
                 else:
                     val = sym(v)
                 env["@attr:" + key.lower()] = "?" if val is UNK or (isinstance(val, tuple) and val[1] is UNK) else val
@@ -307,13 +315,25 @@ def check_attr_table(ck, fi):
 
     known = {m: None for m in pure_self_methods(ck.repo, WEB, RH)}
     resolver = make_resolver(ck.repo, WEB, RH)
+    from ..x_taint import resolve_pattern
+
+    def rx_of(expr, fi=fi):
+        try:
+            return resolve_pattern(ck.repo, fi, expr)
+        except AnalysisError:
+            return None
+
     exit_id = fi.cfg.exit.id
+    from ..x_peval import module_constants, class_constants
+    consts = module_constants(fi)
+    consts.update(class_constants(ck.repo, WEB, RH))
     n_val = 0
     EXPL = 1700000000
     for domain, expires, days, max_age, httponly, secure, samesite in itertools.product((None, "d.example"), (None, EXPL), (None, 0, 7), (None, 60), (False, True), (False, True), (None, "lax")):
         n_val += 1
-        init = {"name": "n", "value": "v", "domain": domain, "expires": expires, "path": "/p", "expires_days": days, "max_age": max_age,
-                "httponly": httponly, "secure": secure, "samesite": samesite, "@resolve": resolver}
+        init = dict(consts)
+        init.update({"name": "n", "value": "v", "domain": domain, "expires": expires, "path": "/p", "expires_days": days, "max_age": max_age,
+                "httponly": httponly, "secure": secure, "samesite": samesite, "@resolve": resolver, "@rx": rx_of})
         if kw:
             init[kw] = ()
         states = peval(fi.cfg, init, hook=hook, known_self_methods=known, track=lambda t: True)
@@ -345,9 +365,9 @@ def check_attr_table(ck, fi):
             if key in seen:
                 continue
             seen.add(key)
-            ck.ob("C25.attr-table", fi, fi.node, env.get("@cookie") == ("n", "v"), "the cookie is stored under the given name with the given value (%s)" % label, construct="cookie stored as %r" % (env.get("@cookie"),))
+            OB(ck, env, "C25.attr-table", fi, fi.node, env.get("@cookie") == ("n", "v"), "the cookie is stored under the given name with the given value (%s)" % label, construct="cookie stored as %r" % (env.get("@cookie"),))
             diff = sorted(k for k in set(got) | set(want) if got.get(k, "<absent>") != want.get(k, "<absent>"))
-            ck.ob("C25.attr-table", fi, fi.node, not diff, "the morsel carries exactly the requested attributes with the requested values (%s)%s" % (label, "" if not diff else "; differs in %s: stored %r, requested %r" % (diff, {k: got.get(k, "<absent>") for k in diff}, {k: want.get(k, "<absent>") for k in diff})),
+            OB(ck, env, "C25.attr-table", fi, fi.node, not diff, "the morsel carries exactly the requested attributes with the requested values (%s)%s" % (label, "" if not diff else "; differs in %s: stored %r, requested %r" % (diff, {k: got.get(k, "<absent>") for k in diff}, {k: want.get(k, "<absent>") for k in diff})),
                   construct="attribute mismatch: %s" % ",".join(diff))
     ck.floor("C25.attr-table", n_val, 192, "valuations of set_cookie")
 
@@ -368,11 +388,11 @@ def check_emit(ck):
                 raise AnalysisError("RequestHandler.flush: the cookie loop emits through %s: unknown idiom" % q.unparse(other[0].func))
         ck.ob("C25.emit", fl, l.ast.iter, len(emits) == 1, "exactly one header is emitted per morsel", construct="emits per morsel: %d" % len(emits))
         for c in emits:
-            ck.ob("C25.emit", fl, c, c.func.attr == "add_header" and isinstance(q.arg(c, 0), ast.Constant) and q.arg(c, 0).value == "Set-Cookie",
+            ck.ob("C25.emit", fl, c, c.func.attr == "add_header" and isinstance(q.arg(c, 0, "name"), ast.Constant) and q.arg(c, 0, "name").value == "Set-Cookie",
                   "each morsel becomes its own Set-Cookie line (add_header, not set_header which would keep only the last)")
-            v = resolve_local(fl, q.arg(c, 1)) if q.arg(c, 1) is not None else None
+            v = resolve_local(fl, q.arg(c, 1, "value")) if q.arg(c, 1, "value") is not None else None
             ok = isinstance(v, ast.Call) and isinstance(v.func, ast.Attribute) and v.func.attr == "OutputString" and q.dotted(v.func.value) == tgt and (
-                (not v.args and not v.keywords) or (len(v.args) == 1 and isinstance(v.args[0], ast.Constant) and v.args[0].value is None and not v.keywords))
+                (not v.args and not v.keywords) or (isinstance(q.arg(v, 0, "attrs"), ast.Constant) and q.arg(v, 0, "attrs").value is None and len(v.args) + len(v.keywords) == 1))
             ck.ob("C25.emit", fl, c, ok, "the header value is morsel.OutputString(None): name=value with all (and only) the stored attributes")
     # emitted before the header block is written, whenever a jar exists
     wh = method_calls(fl, "write_headers", "self.request.connection")
@@ -421,7 +441,7 @@ def check_funnel(ck):
         cs = call_sites(fi, "self.set_cookie")
         ck.ob("C25.funnel", fi, fi.node, len(cs) == 1, "%s delegates to set_cookie exactly once" % nm, construct="%s: %d set_cookie calls" % (nm, len(cs)))
         for _n, c in cs:
-            name_ok = bool(c.args) and q.dotted(c.args[0]) == ps[0]
+            name_ok = q.arg(c, 0, "name") is not None and q.dotted(q.arg(c, 0, "name")) == ps[0]
             kw_ok = kw is None or any(k.arg is None and q.dotted(k.value) == kw for k in c.keywords)
             ck.ob("C25.funnel", fi, c, name_ok and kw_ok, "%s passes the cookie name and all keyword attributes on to set_cookie" % nm)
             if nm == "clear_cookie":
